@@ -70,6 +70,14 @@ def gen(rng, tier, escalate):
         if len(ops) < 2:
             continue
         cases.append({"syntax": rng.choice(["ios", "nxos"]), "ibl": False, "delims": ["!"], "ac": False, "nocommit": True, "lines": lines, "ops": ops, "kind": "dirty"})
+    # several auto-indented lines appended, without a commit in between, to the SAME line object that already has
+    # children (one loop over the payloads, as in the documentation's example): each lands inside the family
+    for t in range(nrand // 3):
+        lines, _ = editgen.gen_history(rng, 8, 1)
+        i = rng.randrange(len(lines))
+        ops = [{"k": "atf_auto", "i": i, "s": rng.choice([" new", "zz", " Eth1", "a", "b", "x y"]), "same": True, "need_children": True, "rx": "a", "b": "a", "a2": "b"}
+               for _ in range(rng.randint(2, 3))]
+        cases.append({"syntax": rng.choice(["ios", "nxos"]), "ibl": False, "delims": ["!"], "ac": False, "nocommit": True, "lines": lines, "ops": ops, "kind": "atf_repeat"})
     return cases
 
 
